@@ -4,17 +4,24 @@ import PlumVerif.Proofs.Types
 import PlumVerif.Model.DecodeSensors
 import PlumVerif.Props.TieStructParams
 /-
-Tie: the Lean definitions translated from the SOURCE TEXT of the sensor sections
+Tie: the Lean definitions translated from the SOURCE TEXT of the thermostat-sensors section
 
   structures/thermostat_sensors.py  ThermostatSensorsStructure._unpack_thermostat_sensors / ._thermostat_sensors / .decode
-  structures/mixer_sensors.py       MixerSensorsStructure._unpack_mixer_sensors / ._mixer_sensors / .decode
-  structures/fuel_level.py, boiler_load.py, pending_alerts.py, fan_power.py, boiler_power.py, fuel_consumption.py,
-  structures/output_flags.py        <X>Structure.decode
 
-(Generated/PyCode.lean, rewritten by tools/py2lean.py on every run) equal the hand-written decoders of
-Model/DecodeSensors.lean (`Sens.decThermostats`, `decMixers`, `decFuelLevel`, …) for EVERY message, every natural
-offset, every instance and every `data` argument that is `None` or a dict: result, exception class, returned offset and
-the attributes (`_offset`, `_contact_mask`, `_schedule_mask`) left on the instance.
+(Generated/PyCode.lean, rewritten by tools/py2lean.py on every run) equal the hand-written decoder of
+Model/DecodeSensors.lean (`Sens.decThermostat`, `thermoEntries`, `decThermostats`).  THIS file has theorems about the
+thermostat section only; the other translated sections (mixer sensors, fuel level, boiler load, pending alerts, fan power,
+boiler power, fuel consumption, output flags) are tied in Props/TieStructSections.lean, which also has the ONE statement
+`thermostat_sensors_decode_model : (decode …).map (·.1) = match Sens.decThermostats (msg.drop off) with …` (with the rendering
+`fieldV : Val → V`); here the result is spelled out inline (`thermostat_sensors_decode_eq`) and connected to the model by
+`entriesP_model` and `decThermostats_shape`.
+
+Hypotheses, exactly: every message (`List UInt8`), every NATURAL offset (a negative offset runs in the translated code; no
+theorem covers it), every instance (`.obj` with any attributes), every `data` argument that is `None` or a string-keyed dict
+(`dataOk`); the helpers are stated for an instance whose `_offset`, `_contact_mask`, `_schedule_mask` are naturals (`st3`), which
+is what `decode` establishes.  Statements give: result, exception class, returned offset, and the attributes (`_offset`,
+`_contact_mask`, `_schedule_mask`) on the instance after a SUCCESSFUL call (a method is `PyM (result × instance)`: the instance
+after an exception is not part of any statement).
 
 Thermostats: `thermostat_fold` is the statement two blind seeds broke — the contact / schedule masks are shifted once per
 SLOT (connected or not), the offset advances 9 bytes per slot, the yielded index is the slot's position.
